@@ -9,7 +9,8 @@
       Proofs/EbSimLoop_proofs.v                   decoder side: symbol loop + start faces + compaction along a script
       Proofs/EbSim_proofs.v                       composition
       Proofs/EbSimEv_proofs.v                     decoder side with topology split events
-      Proofs/EbSimEvChk_proofs.v                  the script conditions as a sound decidable check.
+      Proofs/EbSimEvChk_proofs.v                  the script conditions as a sound decidable check
+      Proofs/EbSimCount_proofs.v                  the vertex count ([verts_fit] derived).
 
     STATUS
       C01_ebsim_trace_refines_big_step   proved: erasing the trace of [eb_encode_tr] gives [eb_encode]
@@ -92,6 +93,15 @@
                                          ANY number of start faces / components / runs, every remove_invalid_vertices), and the
                                          simulation along the trace for it ([sim4]: the decoder's stack = current face, the
                                          encoder's entries below its top, one entry per later run)
+      C01_ebsim_verts_fit_no_event / C01_ebsim_roundtrip_no_event_all_ct2
+                                         proved: [verts_fit] is a CONSEQUENCE for CornerTable::Create tables without split event
+                                         (before the compaction the decoder has created cntv vertices: the non-isolated ones are
+                                         pairwise different vertices of non-degenerated faces by [eb_iso], at most
+                                         |vertex_corners_| - num_isolated_vertices_; the isolated ones are on the invalid list,
+                                         one per S), so the `_ct` round trip needs only the two premises of
+                                         C09_ebenc_stream_never_rejected_by_guards_partial (size bound; guard G3).  G3 is NOT a
+                                         consequence of C13's invariants (many faces over three vertices violate it, and
+                                         DecodeConnectivity then rejects the encoder's own stream)
       SPLIT EVENTS, the DECODER HALF (Proofs/EbSimEv_proofs.v):
       C01_ebsim_split_loop / C01_ebsim_dec_step_S_split / C01_ebsim_sim_step_S_split / C01_ebsim_S_separation_split
                                          proved: the IsTopologySplit loop after an E / L / R registers exactly the events whose
@@ -111,7 +121,7 @@
                                          Examples pass the check (so does every no-event Example).
     NOT proved - the ENCODER half of the general theorem, exactly this lemma:
         eb_encode c2v opp nv niso ndeg = EOk o  ->  class_script c2v opp nf o = true     (for tables with C13's invariants)
-    i.e. (a) o_events = the events grouped by source symbol (from the sortedness in out_ok); (b) an event (src, spl, edge) is
+    i.e. (a) o_events = the events grouped by source symbol - PROVED, C01_ebsim_events_bookkeeping; (b) an event (src, spl, edge) is
     recorded exactly when the left corner pushed at the S symbol spl is popped dead, at the E / L / R symbol src that visits
     that corner's face, with Opposite(Previous(S corner)) = Next / Previous(src corner) for RIGHT / LEFT - the encoder
     invariant [KI] / [KO] of EbSimEnc_proofs has the `no event => no dead pop` direction only; (c) [tops_stackM] with dead
@@ -119,7 +129,7 @@
 From Coq Require Import ZArith List Bool.
 From Draco Require Import Model.CornerTable Model.EbEncoder Model.EbTrace Proofs.CornerTable_proofs Proofs.EbEncoder_proofs.
 From Draco Require Import Proofs.EbTrace_proofs Proofs.EbSimEnc_proofs Proofs.EbSimDec_proofs Proofs.EbSimS_proofs Proofs.EbSimLoop_proofs Proofs.EbSim_proofs.
-From Draco Require Import Proofs.EbSimEv_proofs Proofs.EbSimEvChk_proofs.
+From Draco Require Import Proofs.EbSimEv_proofs Proofs.EbSimEvChk_proofs Proofs.EbSimCount_proofs.
 From Draco Require Model.Edgebreaker Proofs.Edgebreaker_proofs Proofs.Edgebreaker_fan_proofs Proofs.Edgebreaker_compact_proofs
   Proofs.EbSimCompact_proofs.
 Import ListNotations.
@@ -572,6 +582,17 @@ Theorem C01_ebsim_trace_no_event : forall c2v opp nf nv niso ndeg o tr rm maxv,
 Proof. exact ebsim_trace_noevent. Qed.
 Print Assumptions C01_ebsim_trace_no_event.
 
+Theorem C01_ebsim_verts_fit_no_event : forall faces t o, ct_create faces = Some t -> eb_encode_ct t = EOk o -> o_events o = [] -> verts_fit o.
+Proof. exact verts_fit_noevent. Qed.
+Print Assumptions C01_ebsim_verts_fit_no_event.
+
+Theorem C01_ebsim_roundtrip_no_event_all_ct2 : forall faces t o rm, ct_create faces = Some t -> eb_encode_ct t = EOk o -> o_events o = [] ->
+  (Z.of_nat (3 * length faces + length (ct_vcorn t)) < 2147483648)%Z ->
+  ((3 * o_nfaces o) / 2 <= (o_nverts o * (o_nverts o - 1)) / 2)%Z ->
+  exists n s, eb_decode_of o rm = Edgebreaker.Ok (n, s) /\ eb_iso (ct_c2v t) (ct_opp t) (o_pcc o) (Edgebreaker.c2v s) (Edgebreaker.copp s).
+Proof. exact ebsim_roundtrip_noevent_ct'. Qed.
+Print Assumptions C01_ebsim_roundtrip_no_event_all_ct2.
+
 (** ** split events: the decoder half *)
 Local Open Scope Z_scope.
 Theorem C01_ebsim_split_loop : forall (ns k : nat), (k < ns)%nat -> Z.of_nat ns < 2147483648 ->
@@ -650,6 +671,23 @@ Theorem C01_ebsim_roundtrip_events_checked : forall c2v opp nf nv niso ndeg o rm
               eb_iso c2v opp (o_pcc o) (Edgebreaker.c2v s) (Edgebreaker.copp s).
 Proof. exact ebsim_roundtrip_checked. Qed.
 Print Assumptions C01_ebsim_roundtrip_events_checked.
+
+Theorem C01_ebsim_roundtrip_events_checked_ct : forall faces t o rm, ct_create faces = Some t -> eb_encode_ct t = EOk o ->
+  class_script (ct_c2v t) (ct_opp t) (length faces) o = true ->
+  (Z.of_nat (3 * length faces + length (ct_vcorn t)) < 2147483648)%Z ->
+  ((3 * o_nfaces o) / 2 <= (o_nverts o * (o_nverts o - 1)) / 2)%Z ->
+  (Z.of_nat (length (o_events o)) <= o_nfaces o)%Z ->
+  (cntv (rev (o_syms o)) <= o_nverts o + o_nsplit o)%Z ->
+  exists n s, eb_decode_of o rm = Edgebreaker.Ok (n, s) /\ eb_iso (ct_c2v t) (ct_opp t) (o_pcc o) (Edgebreaker.c2v s) (Edgebreaker.copp s).
+Proof. exact ebsim_roundtrip_checked_ct. Qed.
+Print Assumptions C01_ebsim_roundtrip_events_checked_ct.
+
+(** one conjunct of [class_script] holds for EVERY encoding: the events are grouped by their source symbol *)
+Theorem C01_ebsim_events_bookkeeping : forall c2v opp nf nv niso ndeg o,
+  length c2v = 3 * nf -> opp_ok c2v opp -> (forall c, c < 3 * nf -> vtx c2v c < nv) -> one_fan c2v opp ->
+  eb_encode c2v opp nv niso ndeg = EOk o -> rev (REM (rev (o_syms o)) (EVseg_of o) 0) = o_events o.
+Proof. exact events_bookkeeping. Qed.
+Print Assumptions C01_ebsim_events_bookkeeping.
 
 Theorem C01_ebsim_ndp_check_sound : forall opp tr, ndp_b opp tr = true -> ndp opp tr.
 Proof. exact ndp_b_sound. Qed.
@@ -805,4 +843,9 @@ Example ebsim_events_grid_two_holes :
 Proof. vm_compute. reflexivity. Qed.
 Example ebsim_events_check_no_event : script_info (grid 4 4 false) = Some (true, 0, 1) /\
   script_info (grid 3 3 false ++ shift_faces 100 (grid 4 4 false)) = Some (true, 0, 2).
+Proof. vm_compute. split; reflexivity. Qed.
+(** several components WITH events (a torus next to a disc with a hole: 3 events, 2 start-face bits), a torus with a hole *)
+Example ebsim_events_components :
+  script_info (grid 3 3 true ++ shift_faces 100 (firstn 8 (grid 3 3 false) ++ skipn 10 (grid 3 3 false))) = Some (true, 3, 2) /\
+  script_info (skipn 2 (grid 4 4 true)) = Some (true, 2, 1).
 Proof. vm_compute. split; reflexivity. Qed.
